@@ -16,16 +16,30 @@ def _net():
     return net
 
 
+class _Cbs:
+    """callbacks are *bound methods*, created afresh on every access like the library's own handlers
+    (obj.m == obj.m but obj.m is not obj.m)"""
+
+    def __init__(self, log):
+        self.log = log
+
+    def __getitem__(self, i):
+        return getattr(self.log, "cb%d" % i)
+
+
 class Log:
     def __init__(self):
         self.calls = []
-        self.cbs = [self._mk(i) for i in range(3)]
+        self.cbs = _Cbs(self)
 
-    def _mk(self, i):
-        def cb(can_id, data, timestamp):
-            self.calls.append((i, can_id, data, timestamp))
-        cb.__name__ = "cb%d" % i
-        return cb
+    def cb0(self, can_id, data, timestamp):
+        self.calls.append((0, can_id, data, timestamp))
+
+    def cb1(self, can_id, data, timestamp):
+        self.calls.append((1, can_id, data, timestamp))
+
+    def cb2(self, can_id, data, timestamp):
+        self.calls.append((2, can_id, data, timestamp))
 
 
 # all duplicate-free callback lists over 3 callbacks (including the empty list)
@@ -77,7 +91,7 @@ def _same_state(net, ref, probe_keys, tag):
     for k in probe_keys:
         have = net.subscribers.get(k) or []
         want = ref.get(k)
-        sx.prove(len(have) == len(want) and all(a is b for a, b in zip(have, want)),
+        sx.prove(len(have) == len(want) and all(a == b for a, b in zip(have, want)),
                  "subscribed callbacks differ from the reference", tag + "/state")
     # no extra non-empty entries
     n_have = sum(1 for k in net.subscribers.keys() if net.subscribers[k])
@@ -119,7 +133,7 @@ def _apply(net, ref, log, op, tag, i=0):
         new = log.calls[n0:]
         want = ref.get(cid)
         sx.observe("calls", [c[0] for c in new])
-        sx.prove(len(new) == len(want) and all(log.cbs[c[0]] is w for c, w in zip(new, want)),
+        sx.prove(len(new) == len(want) and all(log.cbs[c[0]] == w for c, w in zip(new, want)),
                  "exactly the subscribed callbacks, once each, in subscription order", tag + "/dispatch")
         sx.prove(sx.all_([(c[1] == cid) & sx.eq_bytes(c[2], data) & (c[3] == ts) for c in new]),
                  "callbacks get the frame's id, data and timestamp", tag + "/arguments")
@@ -173,13 +187,22 @@ def _mknode(kind, nid):
     return sx.mod("canopen.node.local").LocalNode(nid, _node_od())
 
 
-def node_replace(old_kind, action, nid):
-    """after a node is removed or replaced none of the old node's handlers sees another frame"""
+def node_replace(old_kind, action, nid, extra=0, twice=0):
+    """after a node is removed or replaced none of the old node's handlers sees another frame
+    (extra: the remote node has an additional SDO channel, added before (1) or after (2) it joined the
+    network; twice: the node was associated with the network twice)"""
     net = sx.mod("canopen.network").Network()
     sent = []
     net.send_message = lambda cid, data, remote=False: sent.append((cid, data))
     old = _mknode(old_kind, nid)
+    chan = None
+    if extra == 1 and old_kind == "remote":
+        chan = old.add_sdo(0x640 + nid, 0x5C0 + nid)
     net.add_node(old)
+    if extra == 2 and old_kind == "remote":
+        chan = old.add_sdo(0x640 + nid, 0x5C0 + nid)
+    if twice:
+        old.associate_network(net)
     new = None
     if action == "delete":
         del net[nid]
@@ -194,10 +217,15 @@ def node_replace(old_kind, action, nid):
         net.notify(0x80 + nid, sx.fresh_bytes("emcy", 8), 3.0)
         net.notify(0, sx.mkbytes([sx.fresh_byte("cs"), nid]), 4.0)
         net.notify(0x600 + nid, sx.mkbytes([0x40, 0x00, 0x10, 0, 0, 0, 0, 0]), 5.0)
+        if chan is not None:
+            net.notify(0x5C0 + nid, sx.fresh_bytes("sdo2", 8), 6.0)
     except Exception as e:
         sx.observe("exc", C.exc_name(e))
         sx.fail("a handler of the removed node was still called (%s)" % C.exc_name(e), tag + "/stale-handler")
         return
+    if chan is not None:
+        sx.prove(chan.responses.empty(), "old node's additional SDO channel still receives", tag + "/old-sdo-channel")
+        sx.reach("node-extra-channel")
     if old_kind == "remote":
         sx.prove(old.sdo.responses.empty(), "old node's SDO client still receives", tag + "/old-sdo")
         sx.prove(len(old.emcy.log) == 0, "old node's EMCY consumer still receives", tag + "/old-emcy")
@@ -296,6 +324,10 @@ def jobs(tier):
         for action in ("delete", "remote", "local"):
             for nid in (1, 2, 127):
                 out.append(dict(func="node_replace", params=dict(old_kind=old, action=action, nid=nid)))
+            out.append(dict(func="node_replace", params=dict(old_kind=old, action=action, nid=5, twice=1)))
+            if old == "remote":
+                for extra in (1, 2):
+                    out.append(dict(func="node_replace", params=dict(old_kind=old, action=action, nid=3, extra=extra)))
     for n in range(0, 9):
         for periodic in (False, True):
             out.append(dict(func="outgoing", params=dict(n=n, periodic=periodic)))
@@ -324,7 +356,7 @@ META = dict(
     assumptions=[],
     stubs=["can (recording model)", "dict displays -> SymDict", "threading.Lock", "queue", "logging"],
     required_reach=["step", "op-subscribe", "op-unsubscribe", "op-unsubscribe-missing", "op-notify", "history",
-                    "node-delete", "node-remote", "node-local", "outgoing", "listener", "scanner"],
+                    "node-delete", "node-remote", "node-local", "node-extra-channel", "outgoing", "listener", "scanner"],
     limits=dict(quick=dict(max_decisions=20000), thorough=dict(max_decisions=20000, job_timeout_s=3000)),
     validate_every=dict(quick=11, thorough=101),
     max_validate=dict(quick=60, thorough=60),
